@@ -90,7 +90,7 @@ func init() {
 
 type X struct {
 	K   string `json:"k"`
-	S   int    `json:"s,omitempty"`   // const: string number; typed: type number; panicstr: string number
+	S   int    `json:"s,omitempty"`   // const: string number; typed: type number; panicstr: string number; wrap: 1 = Wrapf; unwrap: 1 = ers.Unwrap
 	ID  int    `json:"id,omitempty"`  // leaf identity; wrap: identity of the annotation error; panicother: the int
 	Tag int    `json:"tag,omitempty"` // identity of the object this node creates
 	Xs  []*X   `json:"xs,omitempty"`
@@ -149,6 +149,12 @@ func (x *X) coq() string {
 		return "XPanicErrs " + kit.ZI(x.Tag) + " " + xs()
 	case "panicother":
 		return "XPanicOther " + kit.ZI(x.Tag) + " " + kit.ZI(x.ID)
+	case "unwrap":
+		return "XUnwrap " + kit.ZI(x.Tag) + " (" + x.Xs[0].coq() + ")"
+	case "joinremoveok":
+		return "XJoinRemoveOk " + kit.ZI(x.Tag) + " " + xs()
+	case "joinappend":
+		return "XJoinAppend " + kit.ZI(x.Tag) + " " + xs()
 	}
 	panic("bad kind " + x.K)
 }
@@ -522,7 +528,47 @@ type topInfo struct {
 	length int // Len() of the top-level collector / stack, -1 otherwise
 }
 
+// ev evaluates a node and checks, on every value any node produces, that an error which still holds
+// constituents is never reported Ok (ers.Ok / ers.IsError are what Wrap, Wrapf, Append, RemoveOk, ... consult).
 func (e *env) ev(x *X, top *topInfo) error {
+	v := e.evNode(x, top)
+	if v != nil {
+		if n := e.lookup(v); n != nil {
+			held := idsOfNodes(flatten(n))
+			if len(held) > 0 && (ers.Ok(v) || !ers.IsError(v)) {
+				e.fail("C12:Ok:nonempty", fmt.Sprintf("%s: ers.Ok=%v ers.IsError=%v on a %T that holds constituents %v", x.K, ers.Ok(v), ers.IsError(v), v, held), held)
+			}
+			if len(held) == 0 && n.kind == kStack && (!ers.Ok(v) || ers.IsError(v)) {
+				e.fail("C12:Ok:empty", fmt.Sprintf("%s: ers.Ok=%v on an empty stack", x.K, ers.Ok(v)), nil)
+			}
+		}
+	}
+	return v
+}
+
+// keptAll: a filter (RemoveOk / Append) must keep every operand that still holds constituents, in order, and no nil
+func (e *env) keptAll(op string, vs, kept []error) {
+	j := 0
+	for _, v := range vs {
+		if v == nil {
+			continue
+		}
+		n := e.lookup(v)
+		holds := n != nil && len(flatten(n)) > 0
+		if j < len(kept) && kept[j] == v {
+			j++
+			continue
+		}
+		if holds {
+			e.fail("C12:"+op+":lost", fmt.Sprintf("ers.%s dropped operand %d which holds constituents %v", op, e.idOf(v), idsOfNodes(flatten(n))), e.ids(kept))
+		}
+	}
+	if j != len(kept) {
+		e.fail("C12:"+op+":invented", fmt.Sprintf("ers.%s returned %v from operands %v", op, e.ids(kept), e.ids(vs)), e.ids(kept))
+	}
+}
+
+func (e *env) evNode(x *X, top *topInfo) error {
 	kids := func() []error {
 		vs := make([]error, len(x.Xs))
 		for i, c := range x.Xs {
@@ -568,7 +614,12 @@ func (e *env) ev(x *X, top *topInfo) error {
 		return res
 	case "wrap":
 		v := e.ev(x.Xs[0], nil)
-		res := ers.Wrap(v, fmt.Sprintf("ann-%d", x.ID))
+		var res error
+		if x.S == 1 {
+			res = ers.Wrapf(v, "ann-%d", x.ID)
+		} else {
+			res = ers.Wrap(v, fmt.Sprintf("ann-%d", x.ID))
+		}
 		vn := e.lookup(v)
 		isOk := v == nil || (vn != nil && vn.kind == kStack && len(vn.kids) == 0)
 		if isOk {
@@ -644,6 +695,52 @@ func (e *env) ev(x *X, top *topInfo) error {
 		if top != nil {
 			top.length = ec.Len()
 		}
+		e.registerResult(x.Tag, res)
+		return res
+	case "unwrap":
+		v := e.ev(x.Xs[0], nil)
+		var res error
+		if x.S == 1 {
+			res = ers.Unwrap(v)
+		} else {
+			res = errors.Unwrap(v)
+		}
+		// the inner layer of a stack holds everything but the most recent constituent; a %w wrapper yields its operand
+		if vn := e.lookup(v); vn != nil {
+			switch vn.kind {
+			case kStack:
+				var want []int
+				if len(vn.kids) >= 2 {
+					want = idsOfNodes(vn.kids[1:])
+				}
+				got := e.ids(ers.Unwind(res))
+				if (res == nil) != (len(want) == 0) || !eqInts(got, want) {
+					e.fail("C12:Unwrap:layer", fmt.Sprintf("Unwrap of a stack holding %v yields %v (nil=%v), want %v", idsOfNodes(vn.kids), got, res == nil, want), got)
+				}
+			case kWrap:
+				if e.idOf(res) != vn.kids[0].id {
+					e.fail("C12:Unwrap:layer", fmt.Sprintf("Unwrap of wrapper %d yields %d", vn.id, e.idOf(res)), e.idOf(res))
+				}
+			default:
+				if res != nil {
+					e.fail("C12:Unwrap:layer", fmt.Sprintf("Unwrap of %d (no Unwrap() error) is non-nil", vn.id), e.idOf(res))
+				}
+			}
+		}
+		e.registerResult(x.Tag, res)
+		return res
+	case "joinremoveok", "joinappend":
+		vs := kids()
+		var kept []error
+		if x.K == "joinremoveok" {
+			kept = ers.RemoveOk(vs)
+			e.keptAll("RemoveOk", vs, kept)
+		} else {
+			kept = ers.Append(nil, vs...)
+			e.keptAll("Append", vs, kept)
+		}
+		res := ers.Join(kept...)
+		e.checkAggregate("Join", e.nodesOf(vs), res)
 		e.registerResult(x.Tag, res)
 		return res
 	case "panicerr", "panicstr", "panicerrs", "panicother":
@@ -725,16 +822,24 @@ func (g *gen) list(depth int) []*X {
 	return out
 }
 
-var kinds = []string{"errorf", "errorf", "ejoin", "ejoin", "multi", "join", "join", "join", "wrap", "stack", "stack", "stackpush", "collect", "panicerr", "panicstr", "panicerrs", "panicother"}
+var kinds = []string{"errorf", "errorf", "ejoin", "ejoin", "multi", "join", "join", "join", "wrap", "wrap", "stack", "stack", "stackpush", "collect", "panicerr", "panicstr", "panicerrs", "panicother", "unwrap", "unwrap", "unwrap", "joinremoveok", "joinappend"}
 
 func (g *gen) node(k string, depth int) *X {
 	x := &X{K: k, Tag: g.next()}
 	switch k {
 	case "errorf", "panicerr":
 		x.Xs = []*X{g.tree(depth - 1)}
+	case "unwrap":
+		x.S = g.r.Intn(2)
+		x.Xs = []*X{g.layerSource(depth - 1)}
 	case "wrap":
 		x.ID = g.next()
-		x.Xs = []*X{g.tree(depth - 1)}
+		x.S = g.r.Intn(2)
+		if g.r.Chance(1, 3) {
+			x.Xs = []*X{g.node("unwrap", depth)}
+		} else {
+			x.Xs = []*X{g.tree(depth - 1)}
+		}
 	case "panicstr":
 		x.S = g.r.Intn(nConst)
 	case "panicother":
@@ -745,6 +850,27 @@ func (g *gen) node(k string, depth int) *X {
 	return x
 }
 
+// layerSource: something worth peeling with Unwrap — mostly an aggregate of several errors (so the result is an
+// inner layer that still holds constituents), sometimes another peeled layer, a wrapper, or anything else.
+func (g *gen) layerSource(depth int) *X {
+	switch g.r.Intn(8) {
+	case 0, 1, 2, 3:
+		k := []string{"join", "join", "stack", "stackpush", "collect", "joinremoveok"}[g.r.Intn(6)]
+		x := &X{K: k, Tag: g.next()}
+		n := g.r.Range(2, 5)
+		for i := 0; i < n; i++ {
+			x.Xs = append(x.Xs, g.tree(depth-1))
+		}
+		return x
+	case 4, 5:
+		return g.node("unwrap", depth)
+	case 6:
+		return g.node("errorf", depth)
+	default:
+		return g.tree(depth)
+	}
+}
+
 func (g *gen) tree(depth int) *X {
 	if depth <= 0 || g.r.Chance(1, 4) {
 		return g.leaf()
@@ -752,7 +878,7 @@ func (g *gen) tree(depth int) *X {
 	return g.node(kinds[g.r.Intn(len(kinds))], depth)
 }
 
-var topKinds = []string{"join", "join", "join", "join", "join", "join", "wrap", "wrap", "stack", "stack", "stackpush", "collect", "collect", "collect", "panicerr", "panicerr", "panicerrs", "panicstr", "panicother", "ejoin", "errorf", "multi"}
+var topKinds = []string{"join", "join", "join", "join", "join", "join", "wrap", "wrap", "wrap", "stack", "stack", "stackpush", "collect", "collect", "collect", "panicerr", "panicerr", "panicerrs", "panicstr", "panicother", "ejoin", "errorf", "multi", "unwrap", "unwrap", "joinremoveok", "joinappend"}
 
 func genCase(r *kit.Rand) *X {
 	g := &gen{r: r, tag: 1000}
@@ -845,8 +971,12 @@ func execTree(run *kit.Run, c Case, verbose bool) {
 		fmt.Printf("program %s\n result id=%d (%T) ok=%v len=%d\n ers.Unwind=%v Stack.Unwind=%v(%v)\n Is=%v\n As=%v\n oracle failures=%d\n",
 			b, rid, res, okv, top.length, unw, sunw, isStack, isBools, asIDs, e.fails)
 	}
-	term := fmt.Sprintf("CTree %s (%s) (mkObs %s %s %s %s %s %s %s)", kit.ZI(c.ID), c.X.coq(),
-		kit.ZI(rid), kit.Bool(okv), kit.ZListI(unw), optList(sunw, isStack), kit.List(isObs), kit.List(asObs), kit.ZI(top.length))
+	vlen := -1
+	if isStack {
+		vlen = st.Len()
+	}
+	term := fmt.Sprintf("CTree %s (%s) (mkObs %s %s %s %s %s %s %s %s)", kit.ZI(c.ID), c.X.coq(),
+		kit.ZI(rid), kit.Bool(okv), kit.ZListI(unw), optList(sunw, isStack), kit.List(isObs), kit.List(asObs), kit.ZI(top.length), kit.ZI(vlen))
 	d := depthOf(c.X)
 	hist := map[string]int{}
 	countKinds(c.X, hist)
@@ -1099,6 +1229,26 @@ func corpus() []*X {
 		{K: "panicstr", Tag: 1001, S: 3},
 		{K: "panicother", Tag: 1001, ID: 1002},
 		op("join", 1003, op("panicerrs", 1001, leafP(100), leafP(101)), &X{K: "panicother", Tag: 1002, ID: 1004}),
+		// inner layers of aggregates (errors.Unwrap / ers.Unwrap) fed back into everything that consults Ok
+		op("unwrap", 1002, op("join", 1001, leafC(2), leafP(100), leafT(1, 0))),
+		{K: "unwrap", S: 1, Tag: 1003, Xs: []*X{op("unwrap", 1002, op("join", 1001, leafC(2), leafP(100), leafT(1, 0)))}},
+		op("unwrap", 1004, op("unwrap", 1003, op("unwrap", 1002, op("join", 1001, leafC(2), leafP(100), leafT(1, 0))))),
+		op("unwrap", 1002, op("join", 1001, leafC(2))),
+		op("unwrap", 1002, op("errorf", 1001, leafC(2))),
+		op("unwrap", 1002, op("ejoin", 1001, leafC(2), leafC(3))),
+		{K: "wrap", Tag: 1003, ID: 1004, Xs: []*X{op("unwrap", 1002, op("join", 1001, leafC(2), leafP(100), leafT(1, 0)))}},
+		{K: "wrap", S: 1, Tag: 1003, ID: 1004, Xs: []*X{op("unwrap", 1002, op("join", 1001, leafC(2), leafP(100), leafT(1, 0)))}},
+		{K: "wrap", Tag: 1004, ID: 1005, Xs: []*X{op("unwrap", 1003, op("unwrap", 1002, op("join", 1001, leafC(2), leafP(100), leafT(1, 0))))}},
+		{K: "wrap", Tag: 1003, ID: 1004, Xs: []*X{op("unwrap", 1002, op("collect", 1001, leafC(2), leafP(100)))}},
+		op("join", 1003, op("unwrap", 1002, op("join", 1001, leafC(2), leafP(100), leafT(1, 0)))),
+		op("join", 1003, op("unwrap", 1002, op("join", 1001, leafC(2), leafP(100), leafT(1, 0))), leafC(4)),
+		op("stackpush", 1003, op("unwrap", 1002, op("stack", 1001, leafC(2), leafP(100), leafT(1, 0))), nilX()),
+		op("collect", 1003, op("unwrap", 1002, op("join", 1001, leafC(2), leafP(100), leafT(1, 0)))),
+		op("panicerr", 1003, op("unwrap", 1002, op("join", 1001, leafC(2), leafP(100)))),
+		op("joinremoveok", 1004, nilX(), op("unwrap", 1002, op("join", 1001, leafC(2), leafP(100), leafT(1, 0))), op("stack", 1003), leafC(5)),
+		op("joinappend", 1004, nilX(), op("unwrap", 1002, op("join", 1001, leafC(2), leafP(100), leafT(1, 0))), op("stack", 1003), leafC(5)),
+		op("joinremoveok", 1001),
+		op("errorf", 1003, op("unwrap", 1002, op("join", 1001, leafC(2), leafP(100), leafT(1, 0)))),
 	}
 }
 
@@ -1107,7 +1257,7 @@ func main() {
 	run.Header = "From FunV Require Import Base.Tac Model.ErrTree Corr.C12_corr.\nLocal Open Scope Z_scope."
 	run.Footer = "Definition M := Eval vm_compute in mismatches cases.\nPrint M."
 	run.CaseType = "case"
-	run.Rule = "tree cases: random finite programs (depth 1-4, fan-out 0-8) of ers.Join / ers.Wrap / fmt.Errorf(%w) / errors.Join / user Unwrap()[]error type / Stack.Add / Stack.Push / erc.Collector / ers.ParsePanic (error, string, []error, other) over 6 ers.Error constants (incl. \"\" and ErrRecoveredPanic), 4 pointer errors, 6 typed errors of 3 types, and nils; conc cases: 2-8 goroutines adding 0-39 operands each to one Collector with a concurrent Len/Resolve reader. distinct = distinct program (JSON); non-trivial = program depth >= 2 with at least two non-nil leaves (tree) or at least two constituents added (conc)"
+	run.Rule = "tree cases: random finite programs (depth 1-4, fan-out 0-8) of ers.Join / ers.Wrap / ers.Wrapf / errors.Unwrap and ers.Unwrap (inner layers of aggregates, applied repeatedly) / ers.RemoveOk / ers.Append / fmt.Errorf(%w) / errors.Join / user Unwrap()[]error type / Stack.Add / Stack.Push / erc.Collector / ers.ParsePanic (error, string, []error, other) over 6 ers.Error constants (incl. \"\" and ErrRecoveredPanic), 4 pointer errors, 6 typed errors of 3 types, and nils; conc cases: 2-8 goroutines adding 0-39 operands each to one Collector with a concurrent Len/Resolve reader. distinct = distinct program (JSON); non-trivial = program depth >= 2 with at least two non-nil leaves (tree) or at least two constituents added (conc)"
 
 	if run.Replay != "" {
 		var c Case
